@@ -41,6 +41,11 @@ try:
         items = L.law_sum(B, get('x', 4))
     elif law == 'star':
         items = L.law_star(B, get('x', 1), vals.get('y', B.pyzero))
+    elif law == 'star_absorb':
+        # any member of the absorption class manifests: take x = -u/2 and validate the class fact on real torch
+        x = -(2.0 ** -26) if dt == 'float32' else -(2.0 ** -55)
+        assert torch.exp(torch.tensor(x, dtype=dtype)).item() == 1.0 and x < 0
+        items = L.law_star_absorb(B, [x])
     elif law == 'from_int':
         items = L.law_from_int(B, int(vals.get('m', 0)), int(vals.get('n', 0)))
     else:
